@@ -200,8 +200,10 @@ class Gen:
                 y = r.below(10)
                 if y < 3:
                     # weak tables share janet_table_init_impl / put / rehash with ordinary ones (keys are rooted, values immediate)
-                    ops.append("tnewweak %s %s %d" % (t, r.choice(["0", "1", "3", "8", "33", "-1", "nil"]), r.range(1, 3)))
-                    newobj(t)
+                    cap = r.choice(["0", "1", "3", "8", "33", "-1", "nil"])
+                    ops.append("tnewweak %s %s %d" % (t, cap, r.range(1, 3)))
+                    if cap not in ("-1", "nil"):
+                        newobj(t)       # an invalid capacity raises: the register keeps its table (and its prototype chain)
                 elif y < 7:
                     if not cyclic(t):       # freeze recurses along the prototype chain
                         ops.append("freeze %s %s" % (t, S()))
